@@ -12,6 +12,8 @@ def run(tier, seed):
     lines_universe(rep, "vf.oracles:c03_maps", tier, "MarkdownIt.parse", "map contract of the statement (range, non-blank start/end, nesting, sibling order, inline span, coverage incl. env references)")
     from .c17 import add_cons
     add_cons(rep, "C03")
+    from .c17 import add_refdef
+    add_refdef(rep, "C03")
     from .c17 import add_list
     add_list(rep, "C03")
     rep.explanation = (
